@@ -497,7 +497,7 @@ theorem dv_lslice (u : Ty) (hwf : (Ty.lslice u).wf) (hs : descShape u = true) (i
           rfl
         | _ => exact absurd (hty _ ha) (by simp [Ty.hasTy])
       · rw [elemCalls_present u a hnil]
-        exact (ih a (hty a ha) (hok a ha) hnil (ne_map_none_of_not_map u hwf.2.2 a (hty a ha))
+        exact (ih a (hty a ha) (hok a ha) hnil (ne_map_none_of_not_map u hwf.2.2.1 a (hty a ha))
           (by omega)).1 hwf.2.1
   | _ => simp [Ty.hasTy] at hty
 
@@ -680,14 +680,14 @@ theorem dv_entry (k v : Ty) (hwf : (Ty.map k v false).wf) (hks : descShape k = t
       rw [hPK]
       rw [entryWalk_k _ _ { descriptor k with index := 1, name := "key" }
         { descriptor v with index := 2, name := "value" } hkt rfl rfl k.wt PK _ hrk,
-        writeZero_value v hwf.2.2.2]
+        writeZero_value v hwf.2.2.2.1]
     · obtain ⟨PV, hPV, hrv⟩ := hfv e.2 2 htv hov hok2 (by omega) (by omega)
       rw [hPV]
       rw [entryWalk_v _ _ { descriptor k with index := 1, name := "key" }
         { descriptor v with index := 2, name := "value" } hkt rfl rfl v.wt PV _ hrv]
       simp only [List.length_append, List.singleton_append]
     · rw [entryWalk_none _ _ { descriptor k with index := 1, name := "key" }
-        { descriptor v with index := 2, name := "value" } hkt, writeZero_value v hwf.2.2.2]
+        { descriptor v with index := 2, name := "value" } hkt, writeZero_value v hwf.2.2.2.1]
       simp
 
 theorem dv_map (k v : Ty) (hwf : (Ty.map k v false).wf) (hks : descShape k = true)
@@ -866,7 +866,7 @@ theorem F08_slice_counterexample :
     descCalls t (t.app (.struct [.slice [.str [97], .str [98]]]) []) = .err ∧
     descCalls t (t.app (.struct [.slice [.str [1, 0]]]) [])
       = .ok [.startObj, .name (strBytes "L"), .startArr, .str [], .endArr, .endObj] := by
-  refine ⟨by simp [Ty.wf, fieldsWf, Ty.wt, Ty.isMap], by simp [Ty.hasTy, fieldsHaveTy],
+  refine ⟨by simp [Ty.wf, fieldsWf, Ty.wt, Ty.isMap, Ty.isProtoSlice], by simp [Ty.hasTy, fieldsHaveTy],
     by decide +kernel, by decide +kernel⟩
 
 /-- F08 (maps): a proto map in a struct field is one frame per entry; the walker
@@ -875,7 +875,7 @@ theorem F08_map_counterexample :
     let t : Ty := .struct "S" [(1, "M", .map (.str false) (.int 64) true)]
     let v : Val := .struct [.map (some [(.str [97], .int 1), (.str [98], .int 2)])]
     t.wf ∧ t.hasTy v ∧ descCalls t (t.app v []) = .err := by
-  refine ⟨by simp [Ty.wf, fieldsWf, Ty.isMap, validWidth], ?_, by decide +kernel⟩
+  refine ⟨by simp [Ty.wf, fieldsWf, Ty.isMap, Ty.isProtoSlice, validWidth], ?_, by decide +kernel⟩
   simp [Ty.hasTy, fieldsHaveTy, intRange, keysDistinct, Val.beq]
 
 /-- F09: the descriptor of a flat integer carries no width: `int8(-1)` is
@@ -958,7 +958,7 @@ def exVal : Val :=
 theorem ex_hyps : exTy.wf ∧ descShape exTy = true ∧ exTy.hasTy exVal ∧ descOK exTy exVal
     ∧ exVal.omit = false ∧ (marshal exTy exVal).length < 2 ^ 63 := by
   refine ⟨?_, by decide, ?_, ?_, rfl, by decide +kernel⟩
-  · simp [exTy, Ty.wf, fieldsWf, validWidth, Ty.wt, Ty.isMap]
+  · simp [exTy, Ty.wf, fieldsWf, validWidth, Ty.wt, Ty.isMap, Ty.isProtoSlice]
   · simp [exTy, exVal, Ty.hasTy, fieldsHaveTy, intRange, keysDistinct, Val.beq, Val.beqList]
   · simp [exTy, exVal, descOK, fieldsDescOK]
 
